@@ -14,6 +14,11 @@ CONSTANTS
   AllowGarbage = TRUE
   AllowPartition = FALSE
   AllowJunkPP = TRUE
+  GateNodes = {1, 2, 3, 4}
+  InboxCap = 2
+  VersionTest = TRUE
+  MaxDel = 100000
+  ObsoleteTimeout = 2
   ConsumeNet = FALSE
   Ideal = TRUE
   Ghost = TRUE
@@ -23,6 +28,6 @@ CONSTANTS
   QRounds = 2
 INIT TInit
 NEXT TNext
-INVARIANTS TombstonesInvisible NoInventedContent WatcherNeverStale
+INVARIANTS TypeOK TombstonesInvisible NoInventedContent WatcherNeverStale PrefixWatcherNeverStale
 POSTCONDITION TraceAccepted
 CHECK_DEADLOCK FALSE
